@@ -50,7 +50,7 @@ ASSUMPTIONS = [
 def gen_case(tape, tier):
     from pipefunc.map import storage_registry
 
-    backend = tape.pick(sorted(storage_registry), "backend")
+    backend = tape.pick(sorted(b for b in storage_registry if b != "eager_dict"), "backend")  # shipped backends only
     rank = 1 + tape.choose(3, "rank")
     full = [1 + tape.choose(3, "size") for _ in range(rank)]
     while True:
